@@ -13,6 +13,8 @@ type RefResult struct {
 	// Optional: executions (a sub-multiset of Execs) of nodes that do not lead to END in an
 	// all-predecessor graph: the run may return before or after they start.
 	Optional []Exec
+	// OptionalNodes: tags of such nodes (graph nodes included; everything below them is optional too)
+	OptionalNodes []string
 	Steps int
 
 	// facts used to classify cases
@@ -30,6 +32,7 @@ type RefResult struct {
 func (r *RefResult) absorb(sub *RefResult) {
 	r.Execs = append(r.Execs, sub.Execs...)
 	r.Optional = append(r.Optional, sub.Optional...)
+	r.OptionalNodes = append(r.OptionalNodes, sub.OptionalNodes...)
 	r.FanInSameStep = r.FanInSameStep || sub.FanInSameStep
 	r.BranchVaried = r.BranchVaried || sub.BranchVaried
 	r.MixedPreds = r.MixedPreds || sub.MixedPreds
@@ -65,7 +68,7 @@ func Ref(sp *Spec, path string, in any, o RefOpts) *RefResult {
 func evalNode(res *RefResult, n *NodeSpec, path string, in any) (any, string) {
 	tag := path + n.Key
 	res.NodeRuns[tag]++
-	if n.PreH != "" && n.Kind != "pass" {
+	if (n.PreH == "v" || n.PreH == "s") && n.Kind != "pass" {
 		in = PreValue(in)
 	}
 	x := in
@@ -445,6 +448,7 @@ func refDAG(sp *Spec, path string, in any) *RefResult {
 	for k, span := range execSpan {
 		if !anc[k] {
 			res.Optional = append(res.Optional, res.Execs[span[0]:span[1]]...)
+			res.OptionalNodes = append(res.OptionalNodes, path+k)
 		}
 	}
 	if !endDone {
@@ -585,4 +589,14 @@ func StreamFaultExpectation(sp *Spec, in any, o RefOpts) (mustFail bool, noFault
 		return true, a
 	}
 	return false, a
+}
+
+// IsOptionalTag reports whether tag (or an enclosing graph node) is in OptionalNodes.
+func (r *RefResult) IsOptionalTag(tag string) bool {
+	for _, t := range r.OptionalNodes {
+		if tag == t || (len(tag) > len(t) && tag[:len(t)+1] == t+"/") {
+			return true
+		}
+	}
+	return false
 }
